@@ -18,6 +18,7 @@ from vf.engine import Run
 from vf.indep import iso9660
 from vf.model import content
 from vf.propbase import EngineProperty
+from vf.runner import exc_signature
 from vf.props.c04 import allocation_failures
 
 ID = 'C07'
@@ -96,6 +97,10 @@ def check_step(run, i, failures, seen):
                 if sig not in seen:
                     seen.add(sig)
                     failures.append((sig, 'content', 'after step %d (%s): the sectors the names of blob %d point at do not hold its bytes' % (i, kind, b.id)))
+    # the live object: every name of every content reads that content through the API (all path kinds, incl. the Rock Ridge
+    # path, which has a lookup cache of its own), and names that are gone cannot be looked up any more
+    if kind in ('rm_link', 'rm_file', 'add_link', 'link_cat', 'rm_catlink', 'rm_boot', 'reopen') and len(m.t['iso']) + len(m.t['jol']) + len(m.t['udf']) < 60:
+        live_view(run, i, kind, failures, seen)
     # exact release of space
     if vol:
         last = max([first + n for first, n, k, o in ivs if k != 'system-area'] + [0])
@@ -104,6 +109,28 @@ def check_step(run, i, failures, seen):
             if sig not in seen:
                 seen.add(sig)
                 failures.append((sig, 'release', 'after step %d (%s): volume declares %d sectors, the last object ends at %d' % (i, kind, vol, last)))
+
+
+def live_view(run, i, kind, failures, seen):
+    from vf.engine import api_view, model_view, diff_views
+    m = run.model
+    try:
+        relocs = bool(m.relocated_dirs())
+        got = api_view(run.iso, m.has, bool(m.rr), 8192, physical_iso=not relocs,
+                       logical_iso_paths=[p for p in m.t['iso'] if p != '/'] if relocs else None)
+    except Exception as e:  # noqa
+        sig = 'C07/live-view/raised/%s/after-%s' % (exc_signature(e), kind)
+        if sig not in seen:
+            seen.add(sig)
+            failures.append((sig, 'names', 'after step %d (%s): listing / reading the live object raised %s: %s' % (i, kind, type(e).__name__, e)))
+        return
+    run.stats['live_views'] = run.stats.get('live_views', 0) + 1
+    for ns, path, a, b in diff_views(got, model_view(m)):
+        what = 'unexpected' if b is None else ('lost' if a is None else 'differs')
+        sig = 'C07/live-view/%s/%s/%s/after-%s' % (ns, what, m.role(ns, path), kind)
+        if sig not in seen:
+            seen.add(sig)
+            failures.append((sig, 'names', 'after step %d (%s): live object, namespace %s path %r: API shows %r, the edits imply %r' % (i, kind, ns, (path or '')[:70], a, b)))
 
 
 def oracle(program, aux):
